@@ -313,6 +313,23 @@ def _boolify(r):
     return r
 
 
+def isclose(a, b, rtol=1e-05, atol=1e-08, equal_nan=False):
+    if not (_has_sym(a) or _has_sym(b)):
+        return _np.isclose(unwrap(a), unwrap(b), rtol=rtol, atol=atol, equal_nan=equal_nan)
+
+    def one(x, y):
+        d = x - y
+        return S._truth(abs(d) <= atol + rtol * abs(y))
+    if isinstance(a, _np.ndarray) or isinstance(b, _np.ndarray):
+        f = _np.frompyfunc(one, 2, 1)
+        return f(a, b).astype(bool)
+    return one(a, b)
+
+
+def allclose(a, b, rtol=1e-05, atol=1e-08, equal_nan=False):
+    return _np.all(isclose(a, b, rtol, atol, equal_nan))
+
+
 def isscalar(x):
     return isinstance(x, Sym) or _np.isscalar(x)
 
@@ -540,7 +557,7 @@ def _fall(fn):
 
 
 _PASSTHROUGH_ATTRS = {'errstate', 'seterr', 'dtype', 'iinfo', 'finfo', 'generic', 'vectorize',
-                      'printoptions', 'set_printoptions', 'isclose', 'allclose', 'testing'}
+                      'printoptions', 'set_printoptions', 'testing'}
 
 
 def __getattr__(name):
